@@ -316,7 +316,7 @@ func (h *harness) peer(c *conn, idx int, end *simkit.LinkEnd, label string, dir 
 func execRelay(t *testing.T, plan *simkit.Plan) *simkit.Result {
 	dataDir := os.Getenv("MUTAGEN_DATA_DIRECTORY")
 	if dataDir == "" {
-		d, _ := os.MkdirTemp("/dev/shm", "verif-fwdsim-data-")
+		d, _ := simkit.MkdirTemp("/dev/shm", "verif-fwdsim-data-")
 		dataDir = d
 		os.Setenv("MUTAGEN_DATA_DIRECTORY", d)
 	}
